@@ -29,7 +29,7 @@ type modNames struct {
 	Error   *string           `json:"error"`
 }
 
-func buildModule(dir string, css string, cfg config) (js, out string, errs []string) {
+func buildModule(dir string, css string, cfg config) (js, out string, errs []string, warnIs bool) {
 	core.WriteTree(dir, map[string]string{"x.module.css": css, "entry.js": "import * as m from './x.module.css'\nmodule.exports = m\n"})
 	defer os.RemoveAll(dir)
 	o := api.BuildOptions{AbsWorkingDir: dir, EntryPoints: []string{"entry.js"}, Bundle: true, Write: false, Outdir: "out", Format: api.FormatCommonJS, LogLevel: api.LogLevelSilent}
@@ -38,6 +38,7 @@ func buildModule(dir string, css string, cfg config) (js, out string, errs []str
 	}
 	o.Engines = targetByName(cfg.Target).engines
 	res := api.Build(o)
+	warnIs = needsIs(res.Warnings)
 	for _, e := range res.Errors {
 		errs = append(errs, e.Text)
 	}
@@ -74,7 +75,7 @@ func checkLocal(r *core.Run, voc *Vocab, cases []*Case, st *stats) {
 	core.Parallel(len(works), 8, func(i int) {
 		x := works[i]
 		for k, o := range x.w.outs {
-			x.js[k], o.text, o.errs = buildModule(filepath.Join(r.Scratch, fmt.Sprintf("mod%d_%d", i, k)), x.w.text, o.cfg)
+			x.js[k], o.text, o.errs, o.warnIs = buildModule(filepath.Join(r.Scratch, fmt.Sprintf("mod%d_%d", i, k)), x.w.text, o.cfg)
 		}
 	})
 	// what JavaScript sees
@@ -171,7 +172,7 @@ func checkLocal(r *core.Run, voc *Vocab, cases []*Case, st *stats) {
 			tg := targetByName(o.cfg.Target)
 			j := nodeJob{ID: fmt.Sprintf("%d/out%d", i, k), CSS: o.text, Universe: c.Props, Dom: rd}
 			for ix, e := range c.Envs {
-				if f, ok := outEnv(c, e, tg); ok {
+				if f, ok := outEnv(c, e, tg); ok && !(o.warnIs && !subset([]string{"is"}, f)) {
 					o.envIx = append(o.envIx, ix)
 					j.Envs = append(j.Envs, nodeEnv{Conds: voc.nodeConds(c, e), Feats: f})
 				}
